@@ -33,8 +33,20 @@ def compile_prog(spec):
 
     if not isinstance(qf, QlassF):
         return None, "unbound (parameters)"
+    U = spec.get("uncompute", True)
     try:
-        qf.compile("internal", uncompute=spec.get("uncompute", True))
+        if spec.get("history"):
+            # the judged compilation comes after other compilations of the same source in this process:
+            # another object compiled with the opposite flag and the other profile, and this very object
+            # compiled with the opposite flag first (what is asked for last is what must be delivered)
+            try:
+                other = qlassf(spec["src"], to_compile=False, defs=defs, bool_optimizer=opts()["fast" if spec.get("opt", "default") == "default" else "default"])
+                other.compile("internal", uncompute=not U)
+                qlassf(spec["src"], to_compile=True, defs=defs, uncompute=not U, **kw)
+            except Exception:
+                pass
+            qf.compile("internal", uncompute=not U)
+        qf.compile("internal", uncompute=U)
     except Exception as e:
         return None, "compile raises %s: %s" % (type(e).__name__, str(e)[:80])
     return qf, None
